@@ -1,7 +1,7 @@
 """Rules on MessageFrame::new, next_msg_frame and MsgFrameIter (C03, C04, C05, C06, C13, N-pres of C14)."""
 from terms import FA, show, mk, ty_of, subterms, is_const, const_val, T
 from facts import callee_of
-from algebra import fact_of_guard, canon_le, lin, lin_str, bits_of, bits_str, expect_bits
+from algebra import fact_of_guard as _fact_of_guard_raw, canon_le, lin, lin_str, bits_of, bits_str, expect_bits
 
 NEW = "message_frame::MessageFrame::new"
 SCAN = "next_msg_frame"
@@ -12,6 +12,20 @@ ERR = "rtcm_error::RtcmError"
 
 
 from framing_slices import strip_ref, as_slice
+
+
+def fact_of_guard(g):
+    """As algebra.fact_of_guard, with integer `match` arms (x == v / x != v) rendered as comparisons."""
+    fc = _fact_of_guard_raw(g)
+    if fc and fc[0] == "val":
+        t = fc[1]
+        ty = ty_of(t)
+        tn = (ty or {}).get("name") or "usize"
+        if fc[2] == "eq":
+            return ("Eq", t, mk("const", tn, fc[3]))
+        if fc[2] == "ne" and len(fc[3]) == 1:
+            return ("Ne", t, mk("const", tn, list(fc[3])[0]))
+    return fc
 
 
 def neg_canon(c):
@@ -226,6 +240,7 @@ def rules_new(prog, res, want=("A-pre", "A-len", "A-ext", "A-dig", "A-cmp", "A-o
            sample=detail)
     # --- A-err: error classification
     _err_rule(m, res, cls, okf)
+    _inc_rule(m, res)
     # --- A-out
     if L is not None:
         _out_rule(prog, m, res, okr, L)
@@ -332,6 +347,73 @@ def _err_rule(m, res, cls, okf):
     m.err_variants = vs
 
 
+def _mentions(t, atom):
+    if t is atom:
+        return True
+    if isinstance(t, T):
+        return any(_mentions(x, atom) for x in t.args)
+    if isinstance(t, tuple):
+        return any(_mentions(x, atom) for x in t)
+    return False
+
+
+def _inc_rule(m, res):
+    """A-inc: the verdict of a candidate is stable under extension of the buffer.  Incomplete is returned only on a path that
+    failed a lower-bound test on len(frame_data); every other return (Ok, NotValid) lies on a path whose only conditions on
+    len(frame_data) are lower bounds (which stay true when more bytes arrive).  Together with D-idx (only bytes below the
+    proven bound are read) this is what the chunking argument (C06) and 'consumed bytes cannot begin a frame' (C05) need."""
+    names = m.names
+    n_inc = 0
+    from paths import enum_paths, TooMany
+    try:
+        paths = enum_paths(m.fa, max_paths=400)
+    except (TooMany, ValueError) as e:
+        res.ob("A-inc", "new | the paths of MessageFrame::new can be enumerated", False, str(e), m.loc())
+        return
+    seen = set()
+    for blocks, facts, rv, flist in paths:
+        variant = "?"
+        if rv.op == "agg" and rv.args[2] == "Ok":
+            variant = "Ok"
+        elif rv.op == "agg" and rv.args[2] == "Err" and rv.args[3]:
+            v = rv.args[3][0]
+            variant = v.args[2] if v.op == "agg" and v.args[0] == ERR else "?"
+        lower, upper, odd = [], [], []
+        for g in flist:
+            fc = fact_of_guard(g)
+            if not any(_mentions(x, m.len_fd) for x in fc[1:3] if isinstance(x, T)):
+                continue
+            c = canon_le(fc) if fc[0] in ("Lt", "Le", "Gt", "Ge", "Eq", "Ne") else None
+            if c is None or c[0] != "le":
+                odd.append(fc)
+                continue
+            atoms = dict(c[1])
+            others_mention = any(_mentions(a, m.len_fd) for a in atoms if a is not m.len_fd)
+            if others_mention or m.len_fd not in atoms:
+                odd.append(fc)
+            elif atoms[m.len_fd] < 0:
+                lower.append(fc)
+            else:
+                upper.append(fc)
+        sig = (variant, tuple(_fact_str(x, names) for x in upper), tuple(_fact_str(x, names) for x in odd))
+        if sig in seen:
+            continue
+        seen.add(sig)
+        line = m.f.blocks[blocks[-2]]["term"].get("line", m.f.loc["line"]) if len(blocks) >= 2 else m.f.loc["line"]
+        loc = {"file": m.f.loc["file"], "line": line}
+        if variant == "Incomplete":
+            n_inc += 1
+            ok = len(upper) >= 1 and not odd
+            res.ob("A-inc", "new | Err(Incomplete) is returned only where a lower-bound test on len(frame_data) failed [%s]" % "; ".join(sig[1]), ok,
+                   "failed length tests: %s ; other conditions on the length: %s" % (list(sig[1]), list(sig[2])),
+                   loc, sample=list(sig[1]))
+        else:
+            ok = not upper and not odd
+            res.ob("A-inc", "new | %s is decided without a failed or non-monotone test on len(frame_data) (stable when more bytes arrive)" % variant, ok,
+                   "failed length tests on this path: %s ; other conditions on the length: %s" % (list(sig[1]), list(sig[2])), loc)
+    res.ob("A-inc", "new | there is an Err(Incomplete) return", n_inc >= 1, "found %d" % n_inc, m.loc())
+
+
 def _out_rule(prog, m, res, okr, L):
     names = m.names
     adt = prog.adts.get("message_frame::MessageFrame")
@@ -367,7 +449,7 @@ def _out_rule(prog, m, res, okr, L):
            show(vals.get("frame_data"), names), m.loc(okr), sample=show(vals.get("frame_data"), names))
     res.ob("A-out", "new | data field = input[3..L+3]", "data" in vals and slice_is(vals["data"], 3, 3),
            show(vals.get("data"), names), m.loc(okr))
-    res.ob("A-out", "new | crc field = the compared checksum bytes", m.crc_cmp is not None and vals.get("crc") is m.crc_cmp[0],
+    res.ob("A-crcf", "new | crc field = the compared checksum bytes", m.crc_cmp is not None and vals.get("crc") is m.crc_cmp[0],
            show(vals.get("crc"), names), m.loc(okr))
     # accessors
     want = {"data": ("data", None), "frame_data": ("frame_data", None), "crc": ("crc", None),
